@@ -29,6 +29,12 @@ def run():
         except Exception:
             return 'trace'
     ck.reject('TraceIsa', res, key)
+    # "a no-op IMUL_RCP does not count as a register write" is visible only through the branch target of a later CBRANCH:
+    # loop programs with no-op IMUL_RCP words between the writers and the branches, both engines and the TLA+ VM
+    from checks import c04
+    recs = c04.record_vm(ck, wd, ['branch'], extra_args=['--np', '600' if ck.thorough else '200'])
+    c04.validate_vm(ck, 'c18seq', recs['branch'], 'programs with no-op IMUL_RCP words (zero / power-of-two divisors on r0-r2) between register writers and CBRANCH: branch targets decoded by the interpreter and encoded by the x86 JIT = specification; runs = TLA+ VM')
+    ck.cov['branch_programs_with_noop_imul_rcp'] = sum(1 for l in recs['branch'] if '"first":true' in l)
     ck.cov['divisors_checked'] = sum(1 for l in lines if l.startswith('{"e":"rcp"'))
     ck.cov['noop_words_checked'] = sum(1 for l in lines if l.startswith('{"e":"step"'))
     sw = [json.loads(l) for l in lines if l.startswith('{"e":"sweep"')]
